@@ -30,8 +30,14 @@ IDPS = {
     "D-encryption-only": {"eid": "https://idp-d.example.org/md", "keys": [("encryption", 6)]},
     "E-two-signing": {"eid": "https://idp-e.example.org/md", "keys": [("signing", 7), ("signing", 8)]},
     "U-unknown": {"eid": "https://idp-u.example.org/md", "keys": None},
+    # metadata that HOLDS signing keys whose certificates are outside their validity period (k12, k14 expired 2010/2011, k13 not valid before
+    # 2090): the property's rule is about what metadata holds, so embedded certificates stay untrusted; whether a signature under such a
+    # key is accepted is not asserted in either direction (certificate validity is not part of C03)
+    "F-expired-signing": {"eid": "https://idp-f.example.org/md", "keys": [("signing", 12)], "validity": "out"},
+    "G-not-yet-valid-useless": {"eid": "https://idp-g.example.org/md", "keys": [(None, 13)], "validity": "out"},
+    "H-two-expired+encryption": {"eid": "https://idp-h.example.org/md", "keys": [("signing", 12), ("signing", 14), ("encryption", 4)], "validity": "out"},
 }
-KEYS = [0, 3, 4, 5, 6, 7, 8, 9, 1]     # 9: a third party, 1: the SP's own key
+KEYS = [0, 3, 4, 5, 6, 7, 8, 9, 1, 12, 13]     # 9: a third party, 1: the SP's own key, 12/13: keys whose certificates are out of their validity period
 
 
 def signing_capable(name):
@@ -47,6 +53,8 @@ def gen_cases(tier, seed):
             embeds = ["none", "actual", "third"] + (["issuers"] if sc else [])
             for emb, level, opt in itertools.product(embeds, ("response", "assertion"), (1, 0, "default")):
                 if tier == "quick" and emb == "third" and j not in (0, 9):
+                    continue
+                if tier == "quick" and (j in (12, 13)) != bool(IDPS[iname].get("validity")) and j not in (0, 9):
                     continue
                 if opt == "default" and emb == "third":
                     continue
@@ -161,13 +169,14 @@ def run_case(case, ctx):
     resp, exc = fed.deliver(sp, signed, {"id-req-1": "/"})
     evs = [e for e in ctx.events() if not e.get("case", "").startswith("harness:")]
     accepted = resp is not None
-    must_accept = j in sc
+    must_accept = j in sc and not IDPS[signer_issuer].get("validity")
+    may_accept = j in sc
     fallback_ok = (not opt_on) and not sc and emb == j
     viol = []
     outcome = "accept" if accepted else "reject:" + (type(exc).__name__ if exc is not None else "None")
     what = "issuer %s (signing-capable metadata keys %s), signed with k%02d, embedded %s, level %s, only_use_keys_in_metadata=%s: %s" % (
         signer_issuer, ["k%02d" % k for k in sc], j, "k%02d" % emb if emb is not None else "none", case["level"], case["opt"] if case["opt"] == "default" else bool(case["opt"]), outcome)
-    if accepted and not (must_accept or fallback_ok):
+    if accepted and not (may_accept or fallback_ok):
         key = "C03/accepted-under-key-not-held-for-issuer"
         if emb == j and sc:
             key = "C03/embedded-certificate-trusted-although-metadata-has-signing-key"
